@@ -4,7 +4,6 @@ CONSTANTS
   MutW = @MUTW@
   Sem = @SEM@
   LayoutSel = @LAYOUTS@
-  ArithInBodyByValue = TRUE
   LowerNames <- LowerNamesMC
 INIT Init
 NEXT Next
